@@ -23,7 +23,7 @@ impl WorkspaceId {
 // ---- shims: lsp_types (same text as unit c36_exit) -----------------------------------------------
 /// lsp_types::DiagnosticSeverity: a transparent i32 newtype with associated consts ERROR=1 … HINT=4,
 /// derive(PartialOrd) compares the integers.
-#[derive(Clone, Copy, PartialEq, Eq)]
+#[derive(Clone, Copy, PartialEq, Eq, Debug)]
 pub struct DiagnosticSeverity(pub i32);
 impl DiagnosticSeverity {
     pub const ERROR: DiagnosticSeverity = DiagnosticSeverity(1);
@@ -49,6 +49,7 @@ impl PartialOrd for DiagnosticSeverity {
 pub mod lsp_types {
     pub use super::DiagnosticSeverity;
 }
+#[derive(Debug)]
 pub struct Diagnostic { pub severity: Option<DiagnosticSeverity>, pub id: u64 }
 
 /// one channel message: a file and what `diagnose_file` returned for it
@@ -358,6 +359,13 @@ pub mod sarif_output_writer {
 //@@ output_result
 
 //@@ run_check::channel
+
+/// `Box<dyn Error + Sync + Send>`: the error value `run_check` returns is opaque (rule `c36c-error-value-opaque`)
+#[verifier::external_body]
+pub struct BoxedError { _p: () }
+#[verifier::external_body]
+pub fn vx_boxed_error() -> BoxedError { unimplemented!() }
+//@@ run_check::exit
 
 } // verus!
 fn main() {}
